@@ -61,6 +61,8 @@ pub struct Ctx<'a> {
     pub rates: &'a BTreeMap<String, f64>,
     /// UTC day number of the simulated instant
     pub today: i64,
+    /// the simulated instant, seconds since the epoch
+    pub now: i64,
     /// default zone (name, offset minutes)
     pub zone: (String, i32),
     pub data: &'a CfgData,
@@ -119,7 +121,12 @@ fn lit(l: &Lit, c: &Ctx) -> R {
             if d.m < 1 || d.m > 12 || d.d < 1 || d.d > days_in_month(y, d.m) || !(1..=9999).contains(&y) { return R::NotA("Date"); }
             R::V(MVal::Date(days_from_civil(y, d.m, d.d)))
         }
-        Lit::RelDay { k, .. } => R::V(MVal::Date(c.today + k)),
+        Lit::RelDay { k, .. } => {
+            // under a non-UTC default zone the statement does not say whether "today" is the UTC date or
+            // the date in that zone; both are accepted (they differ for a few hours per day only)
+            let local_today = (c.now + c.zone.1 as i64 * 60).div_euclid(86400);
+            if local_today != c.today { R::AnyOf(vec![MVal::Date(c.today + k), MVal::Date(local_today + k)]) } else { R::V(MVal::Date(c.today + k)) }
+        }
         Lit::Time(t) => {
             let (zone, off) = match &t.zone { Some((z, o)) => (z.to_uppercase(), *o), None => c.zone.clone() };
             R::V(MVal::Time { wall: t.wall_secs(), zone, off })
@@ -158,8 +165,12 @@ pub fn eval(e: &Expr, c: &Ctx) -> R {
             other => other,
         },
         Expr::Between { a, b } => {
-            let x = match eval(a, c) { R::V(v) => v, other => return other };
-            let y = match eval(b, c) { R::V(v) => v, other => return other };
+            // two relative days: whatever "today" is, they are that many days apart
+            if let (Expr::Lit(Lit::RelDay { k: k1, .. }), Expr::Lit(Lit::RelDay { k: k2, .. })) = (&**a, &**b) {
+                return R::V(MVal::Dur { secs: (k1 - k2).abs() * 86400, cal: None });
+            }
+            let x = match eval(a, c) { R::V(v) => v, R::AnyOf(_) => return R::Unjudged("open-choice-operand"), other => return other };
+            let y = match eval(b, c) { R::V(v) => v, R::AnyOf(_) => return R::Unjudged("open-choice-operand"), other => return other };
             match (x, y) {
                 (MVal::Date(p), MVal::Date(q)) => R::V(MVal::Dur { secs: (p - q).abs() * 86400, cal: None }),
                 (MVal::Time { wall: p, off: o1, .. }, MVal::Time { wall: q, off: o2, .. }) if o1 == o2 => R::V(MVal::Dur { secs: (p - q).abs(), cal: None }),
@@ -168,13 +179,19 @@ pub fn eval(e: &Expr, c: &Ctx) -> R {
             }
         }
         Expr::AsUnix { e, .. } => match eval(e, c) {
+            // an operand with an open choice (relative day under a non-UTC default zone): any of the choices
+            R::AnyOf(vs) => R::AnyOf(vs.into_iter().filter_map(|v| match v { MVal::Date(d) => Some(MVal::Unix(d * 86400)), MVal::DateTime { utc, .. } => Some(MVal::Unix(utc)), _ => None }).collect()),
             R::V(MVal::Date(d)) => R::V(MVal::Unix(d * 86400)),
             R::V(MVal::DateTime { utc, .. }) => R::V(MVal::Unix(utc)),
             R::V(MVal::Time { wall, off, .. }) => {
                 // the instant of that wall time "today": the statement does not fix which calendar day a
                 // bare time belongs to when the UTC date and the zone's local date differ
+                // "today" is either the UTC date or the date in the time's own zone at the simulated instant
                 let inst = wall - off as i64 * 60;
-                R::AnyOf(vec![MVal::Unix(c.today * 86400 + inst), MVal::Unix((c.today - 1) * 86400 + inst), MVal::Unix((c.today + 1) * 86400 + inst)])
+                let local_today = (c.now + off as i64 * 60).div_euclid(86400);
+                let mut v = vec![MVal::Unix(c.today * 86400 + inst)];
+                if local_today != c.today { v.push(MVal::Unix(local_today * 86400 + inst)); }
+                R::AnyOf(v)
             }
             R::V(_) => R::Unjudged("as-unix-of-this-kind"),
             other => other,
@@ -190,8 +207,8 @@ pub fn eval(e: &Expr, c: &Ctx) -> R {
             R::V(MVal::DateTime { utc: n, zone: z, off: o })
         }
         Expr::At { d, t } => {
-            let date = match eval(d, c) { R::V(MVal::Date(x)) => x, R::V(_) => return R::Unjudged("at-of-non-date"), other => return other };
             if c.zone.1 != 0 { return R::Unjudged("at-under-non-utc-default-zone"); }
+            let date = match eval(d, c) { R::V(MVal::Date(x)) => x, R::V(_) => return R::Unjudged("at-of-non-date"), R::AnyOf(_) => return R::Unjudged("open-choice-operand"), other => return other };
             match eval(t, c) {
                 R::V(MVal::Time { wall, off: 0, .. }) => R::V(MVal::DateTime { utc: date * 86400 + wall, zone: c.zone.0.clone(), off: 0 }),
                 R::V(MVal::Time { .. }) => R::Unjudged("at-with-zoned-time"),
@@ -248,7 +265,7 @@ pub fn agrees(exp: &MVal, obs: &Val, out: &str) -> bool {
             rem(*utc + *o as i64 * 60) == w && off == o && zone.eq_ignore_ascii_case(z)
                 && out.eq_ignore_ascii_case(&format!("{:02}:{:02}:{:02} {}", w / 3600, (w / 60) % 60, w % 60, zone))
         }
-        (MVal::DateTime { utc, zone, off }, Val::DateTime { utc: u, zone: z, off: o, .. }) => utc == u && off == o && zone.eq_ignore_ascii_case(z),
+        (MVal::DateTime { utc, zone, off }, Val::DateTime { utc: u, zone: z, off: o, .. }) => utc == u && off == o && zone.eq_ignore_ascii_case(z) && datetime_print_ok(*utc, *off, out),
         (MVal::Unit(a, f, i), Val::Unit { v, group, index, .. }) => close(*a, v.0) && f == group && i == index,
         _ => false,
     }
@@ -337,4 +354,25 @@ pub fn date_arith_class(e: &Expr, c: &Ctx) -> Option<String> {
         });
     }
     None
+}
+
+thread_local! {
+    /// year of the simulated instant (UTC), set by the executor before judging a line
+    pub static CURRENT_YEAR: std::cell::Cell<i64> = const { std::cell::Cell::new(0) };
+}
+
+/// Format-agnostic check of a printed date-time: the text must show the local
+/// time of day and the local day of the month in the item's zone, and it may
+/// leave out the year only if the local year is the (simulated) current year -
+/// otherwise the text denotes another instant.
+pub fn datetime_print_ok(utc: i64, off: i32, out: &str) -> bool {
+    let local = utc + off as i64 * 60;
+    let (y, _, d) = civil_from_days(local.div_euclid(86400));
+    let sod = local.rem_euclid(86400);
+    let hms = format!("{:02}:{:02}:{:02}", sod / 3600, (sod / 60) % 60, sod % 60);
+    if !out.contains(&hms) { return false; }
+    let words: Vec<&str> = out.split(' ').collect();
+    if words.first().map(|w| *w != d.to_string()).unwrap_or(true) { return false; }
+    let has_year = words.iter().any(|w| *w == y.to_string());
+    has_year || y == CURRENT_YEAR.with(|c| c.get())
 }
